@@ -376,3 +376,8 @@ REGEX_RULES.update(_ts.REGEX_RULES)
 from . import rewrites_zone_file as _zf  # noqa: E402
 RULES.update(_zf.RULES)
 REGEX_RULES.update(_zf.REGEX_RULES)
+
+# rules of the query units (RQ*) live in vq/rewrites_query.py
+from . import rewrites_query as _rq  # noqa: E402
+RULES.update(_rq.RULES)
+REGEX_RULES.update(_rq.REGEX_RULES)
